@@ -1576,8 +1576,10 @@ cdef class NNPS(NNPSBase):
         if (fabs(xmax - xmin) < _eps) and (fabs(ymax - ymin) < _eps) \
             and (fabs(zmax - zmin) < _eps):
             xmin -= 0.5; xmax += 0.5
-            ymin -= 0.5; ymax += 0.5
-            zmin -= 0.5; zmax += 0.5
+            if self.dim > 1:
+                ymin -= 0.5; ymax += 0.5
+            if self.dim > 2:
+                zmin -= 0.5; zmax += 0.5
 
         # store the minimum and maximum of physical coordinates
         self.xmin.set_data(np.asarray([xmin, ymin, zmin]))
